@@ -678,6 +678,59 @@ func c06Reconnect() *sched.Scenario {
 		}}
 }
 
+// c06RefreshVsExpiry: a Refresh arrives at the instant the allocation's lifetime timer fires (lifetime 1 s,
+// Refresh sent 1 ns before). Whatever the order of the timer goroutine and the request: once the Refresh
+// is answered with success, the allocation exists for the granted lifetime from then on - it is counted
+// and data sent half a lifetime later reaches the peer.
+func c06RefreshVsExpiry() *sched.Scenario {
+	return &sched.Scenario{Name: "c06-refresh-at-the-expiry-instant", Bound: bound(), FreeBound: 3, Opt: opt,
+		Body: func(*vsched.Sched) (func() []string, func()) {
+			w := sched.NewBW(sched.BCfg{Lifetime: time.Second, Perm: 10 * time.Second, CB: func(string) { vsched.Point("callback", "cb") }})
+			c := w.NewClient("c1")
+			pa := w.NewPeer("A")
+			a := vtx.PeerSpec["A"]
+			var nt notes
+			vsched.Go("client", func() {
+				c.Do(wire.Allocate, udp)
+				c.Do(wire.CreatePermission, peer("A"))
+				vsched.IdleSleep(time.Second - time.Nanosecond)
+				vsched.Mark()
+				c.Sock.Drain()
+				tx := c.Fire(wire.Refresh, nil) // the server does not answer a Refresh for an allocation that is gone: do not wait for one
+				vsched.IdleSleep(100 * time.Millisecond)
+				nt.set("refresh", "unanswered")
+				for _, d := range c.Sock.Drain() {
+					if r, err := wire.Parse(d.Data); err == nil && r.TxID == tx {
+						nt.set("refresh", fmt.Sprintf("%d/%d", r.Class, r.ErrorCode()))
+						lt, _ := r.U32(wire.AttrLifetime)
+						nt.set("granted", fmt.Sprint(lt))
+					}
+				}
+				vsched.IdleSleep(400 * time.Millisecond)
+				pa.Drain()
+				nt.set("count", fmt.Sprint(w.Srv.AllocationCount()))
+				c.Send(wire.New(wire.Send, wire.Indication, c.NextTx()).XorAddr(wire.AttrXORPeerAddress, a.IP, a.Port).Str(wire.AttrData, "half-a-lifetime-after-the-refresh").Bytes())
+				vsched.IdleSleep(100 * time.Millisecond)
+				nt.set("delivered", fmt.Sprint(pa.Pending()))
+			})
+
+			return func() []string {
+				switch {
+				case nt.get("delivered") == "":
+					return []string{"c06:client-never-completed"}
+				case nt.get("refresh") != fmt.Sprintf("%d/0", wire.Success):
+					return nil // a refused Refresh (437: the expiry came first) promises nothing
+				case nt.get("granted") != "1":
+					return []string{"c06:refresh-success-without-the-configured-lifetime:" + nt.get("granted")}
+				case nt.get("count") != "1" || nt.get("delivered") != "1":
+					return []string{"c06:refresh-answered-success-but-the-allocation-is-gone-half-a-lifetime-later"}
+				}
+
+				return nil
+			}, func() { _ = w.Srv.Close() }
+		}}
+}
+
 // ---------------------------------------------------------------- C07
 
 // c07RefreshVsExpiry: a refresh (CreatePermission / ChannelBind for an existing entry) arrives at the
@@ -806,7 +859,7 @@ func run(t *testing.T, prop string, scs ...*sched.Scenario) {
 func TestC02Sched(t *testing.T) { run(t, "C02", c02ExpiryRace()) }
 func TestC19Sched(t *testing.T) { run(t, "C19", c19RetransmitDuringSlowAllocate()) }
 func TestC07Sched(t *testing.T) { run(t, "C07", c07RefreshVsExpiry("perm"), c07RefreshVsExpiry("chan")) }
-func TestC06Sched(t *testing.T) { run(t, "C06", c06Realloc(), c06ReallocVsTimer(), c06Reconnect()) }
+func TestC06Sched(t *testing.T) { run(t, "C06", c06Realloc(), c06ReallocVsTimer(), c06Reconnect(), c06RefreshVsExpiry()) }
 func TestC04Sched(t *testing.T) { run(t, "C04", c04TwoConns()) }
 func TestC16Sched(t *testing.T) { run(t, "C16", c16TwoBinds(), c16BindVsTimeout()) }
 func TestC15Sched(t *testing.T) {
